@@ -1084,6 +1084,8 @@ namespace east {
     std::set<int> activeCalls;
     bool allowNestedSameCall = false;
     bool allowIntegerParameterExponent = false;
+    //! nested conditionals are general ones (only when C13.cond.nested.rejected is not a known finding)
+    bool nestedFullCond = false;
     int avoidedIntegerExponents = 0;
     int avoidedNestedCalls = 0;
 
@@ -1532,7 +1534,7 @@ namespace east {
           }
           return tame(finish(n));
         }
-        case 10: return flatCond(depth);
+        case 10: return nestedFullCond ? fullCond(depth) : flatCond(depth);
         case 11: {
           auto n = mk(K::Call);
           n->id = static_cast<int>(c.pick(o.ncalls, "call"));
